@@ -3094,6 +3094,12 @@ parsec_insert_dtd_task(parsec_task_t *__this_task)
                     if( parsec_dtd_task_is_local(last_writer.task)) {
                         parsec_dtd_remote_task_retain(
                                 this_task); /* every time we have a remote_task as descendant of a local task */
+                    } else if( TASK_IS_ALIVE == last_user.alive && NULL != last_user.task &&
+                               last_user.task != last_writer.task && parsec_dtd_task_is_local(last_user.task) ) {
+                        /* remote writer chained behind a local reader of a remote writer: the walk triggered by
+                         * the incoming activation of that writer will go through the reader and reach this task,
+                         * which must stay allocated until then (released in parsec_dtd_ordering_correctly) */
+                        parsec_dtd_remote_task_retain(this_task);
                     }
                 }
             }
